@@ -10,9 +10,10 @@ EXPLANATION = ("PARTIAL. Decided (bounded, K5, compositions of <= 3 / 5 elements
                "outcomes (--memory-leak-check). NOT decided by this family: everything inside the scanner CompoundParserSimple - acceptance of "
                "well-formed formulas, the rejection classes, atom counts equal to the algebraic expansion, invariance under reordering and "
                "group expansion (the scanner does not finish in CBMC even for strings of length 2, and a specification of 'the algebraic "
-               "expansion' would itself be a parser, i.e. a model); add_compound_data is not yet under contract.")
+               "expansion' would itself be a parser, i.e. a model). add_compound_data: a bounded lemma exists (ascending union, wA*fA + wB*fB) but no back end finishes; attempted in the thorough tier only, NOT decided.")
 ASSUMPTIONS = [
-    "assumed contract of CompoundParserSimple: 0 + exactly one error, or 1..N strictly ascending atomic numbers in 1..107 with positive finite atom counts in one malloc'ed array",
+    "assumed contract of CompoundParserSimple: 0 + exactly one error, or 1..N strictly ascending atomic numbers in 1..107 with atom counts in [1e-6, 1e6) in one malloc'ed array",
+    "TABLES_WF: atomic weights are absent (<= 0) or in [1, 1000) (audited natively)",
     "assumed contract of setlocale (C11 7.11.1.1): a non-NULL argument installs that locale and returns the new name, NULL queries; the returned string is overwritten by the next call",
     "bounded: N = 3 (quick) / 5 (thorough) elements",
 ]
@@ -33,4 +34,17 @@ def groups(sc, tier):
         kw3["harness_defines"] = kw2["harness_defines"] + ["-DVALUE_LEMMA"]
         gs.append(Group("C07.K5.CompoundParser_values.%d_elements" % k, "K5", "lemma_CompoundParser", functions=["CompoundParser"],
                         attempt_only=True, note="bit-exact molar mass and mass fractions: no back end finishes (heap arrays between code and specification)", **kw3))
+    shapes = [(2, 2), (1, 2), (2, 1)] if tier != "thorough" else [(a, b) for a in (1, 2, 3) for b in (1, 2, 3)]
+    for a, b in shapes:
+        gs.append(Group("C07.K5.add_compound_data.%dx%d" % (a, b), "K5", "lemma_add_compound_data", sources=["src/xraylib-parser.c", "src/xraylib-aux.c"],
+                        extra=["harness/h_parser.c"], export_local=True, remove_bodies=["__CPROVER_file_local_xraylib_parser_c_CompoundParserSimple"],
+                        harness_defines=["-DNMAXEL=%d" % n, "-DLEMMA_ADD", "-DNA_EL=%d" % a, "-DNB_EL=%d" % b], backends=("sat", "cvc5"), timeout=1200,
+                        unwind=a + b + 3, leak_check=True, functions=["add_compound_data", "compareInt"], attempt_only=True,
+                        note="ascending union and wA*fA + wB*fB: no back end finishes within 20 min (symbolic realloc/calloc sizes); thorough tier, attempted",
+                        bounded="compositions of %d and %d elements" % (a, b)))
     return gs
+
+
+def audits(sc, tier, seed):
+    from vlib import audit
+    return audit.run_table_audit(sc, select=[r"^scalar\.AtomicWeight"])
